@@ -23,7 +23,7 @@ for sid in ids:
     if ok.returncode != 0:
         line = f'{sid} {prop} PATCH-DOES-NOT-APPLY'
     else:
-        r = subprocess.run(['/verif/bin/bsym', 'check', '-repo', wt, '-prop', prop, '-tier', tier], capture_output=True, text=True, env=env)
+        r = subprocess.run(['/verif/bin/bsym', 'check', '-workers', os.environ.get('RV_WORKERS', '4'), '-repo', wt, '-prop', prop, '-tier', tier], capture_output=True, text=True, env=env)
         viol = [l.split('# ', 1)[-1] for l in r.stdout.splitlines() if l.startswith('VIOLATION')]
         line = f'{sid} {prop} {tier} exit={r.returncode} violations={len(viol)} first={viol[0][:110] if viol else "-"}'
     print(line, flush=True)
